@@ -8,7 +8,7 @@ ID = "C14"
 RULE = (
     "set.* operations: every length taking constructor / setter / checksum entry point x n in {0, 1, limit-2 .. limit+2, the "
     "alignment residues around the limit, 2^16-1, 2^16, 2^16+1, 2^32-1, 2^32, random} (slice taking APIs: real buffers up to 70 000 "
-    "bytes; thorough: calloc buffers around 2^32 for the 32 bit limits, implementation only) x header states with 0..40 option "
+    "bytes, plus zero filled calloc buffers around 2^32 for the 32 bit limits, implementation only) x header states with 0..40 option "
     "bytes / 0..5 extension headers / 4 MACsec packet types x SCI / ICV and address lengths, so that the overhead c varies; "
     "non-trivial = distinct op line whose length argument is not 0"
 )
@@ -22,7 +22,7 @@ EXPLANATION = (
 )
 ASSUMPTIONS = [
     "64-bit target (usize = u64); lengths above 2^32 are outside the property's quantifier and only compared (correspondence), not judged",
-    "slices longer than 70 000 bytes are exercised only on the implementation (zero filled calloc buffers, thorough tier)",
+    "slices longer than 70 000 bytes are exercised only on the implementation (zero filled calloc buffers of 2^32-8 .. 2^32+1 bytes)",
     "PacketBuilder payload limits belong to C10",
 ]
 
@@ -195,7 +195,7 @@ BEYOND = [2**33, 2**48 + 5, USIZE - 9300, USIZE - 16, USIZE - 15, USIZE - 1, USI
 
 def generate(rng, tier):
     q = tier == "quick"
-    reps = 1 if q else 6
+    reps = 2 if q else 6
 
     def ab():
         return rng.randrange(256), rng.choice([0, 1, 3, 7, 255, rng.randrange(256)])
@@ -354,8 +354,9 @@ def generate(rng, tier):
                 a, b = ab()
                 yield Case(["set.arp.set_hw_addrs\t%s\t%d\t%d\t%d\t%d" % (hx(pk), l, l + d, a, b)], {"k": "arp.sethw"})
                 yield Case(["set.arp.set_protocol_addrs\t%s\t%d\t%d\t%d\t%d" % (hx(pk), l, l + d, a, b)], {"k": "arp.setproto"})
-    # ---- 32 bit limits on the implementation only (zero filled calloc buffers; thorough tier)
-    if not q:
+    # ---- 32 bit limits on the implementation only (zero filled calloc buffers that are never written; the
+    #      rejected calls do not read them, the accepted ones sum 4 GiB of untouched zero pages, ~3 s each)
+    if True:
         src, dst = rb(rng, 16), rb(rng, 16)
         for n in [U32 - 8 + 1, U32 - 8 + 2, U32 + 1]:
             yield Case(["impl.set.udp.calc_checksum_ipv6.big\t%s\t%s\t%s\t%d" % (hx(udp_hdr(rng, 0)), hx(src), hx(dst), n)], {"k": "big.udp6"})
@@ -366,9 +367,13 @@ def generate(rng, tier):
                 yield Case(["impl.set.tcp.calc_checksum_ipv6.big\t%s\t%s\t%s\t%d" % (hx(h), hx(src), hx(dst), n)], {"k": "big.tcp6"})
             for n in [U32 + 1, U32 + 2]:
                 yield Case(["impl.set.tcpslice.calc_checksum_ipv6.big\t%s\t%s\t%s\t%d" % (hx(h), hx(src), hx(dst), n)], {"k": "big.tcps6"})
-        # acceptance at the limit (sums 4 GiB of untouched zero pages)
+        # acceptance at the limit
         yield Case(["impl.set.icmp6.calc_checksum.big\t%s\t%s\t%s\t%d" % (hx(icmp6_hdr(rng)), hx(src), hx(dst), U32 - 8)], {"k": "big.icmp6"})
         yield Case(["impl.set.tcp.calc_checksum_ipv6.big\t%s\t%s\t%s\t%d" % (hx(tcp_hdr(rng, 8)), hx(src), hx(dst), U32 - 28)], {"k": "big.tcp6"})
+        if not q:
+            yield Case(["impl.set.udp.calc_checksum_ipv6.big\t%s\t%s\t%s\t%d" % (hx(udp_hdr(rng, 0)), hx(src), hx(dst), U32 - 8)], {"k": "big.udp6"})
+            h = tcp_hdr(rng, 0)
+            yield Case(["impl.set.tcpslice.calc_checksum_ipv6.big\t%s\t%s\t%s\t%d" % (hx(h), hx(src), hx(dst), U32)], {"k": "big.tcps6"})
 
 
 def is_trivial(c):
@@ -832,7 +837,10 @@ def o_big(kind):
             need(ok_num(out[0]) == want, "checksum-not-over-true-length", got=out[0], want=want, n=n)
         elif kind == "tcps6":
             # n is the length of the whole slice
-            check_toobig(out[0], n <= U32, n - len(h), U32 - len(h), "TcpPayloadLengthIpv6", frames=[(n, U32)])
+            if check_toobig(out[0], n <= U32, n - len(h), U32 - len(h), "TcpPayloadLengthIpv6", frames=[(n, U32)]):
+                return
+            want = tcp_ref(h, pseudo6(src, dst, 6, n), b"")
+            need(ok_num(out[0]) == want, "checksum-not-over-true-length", got=out[0], want=want, n=n)
     return f
 
 
